@@ -233,14 +233,15 @@ func init() {
 }
 
 // VerifC06Retry (sequential): 1-3 transactions in one map bucket are announced by peer A (asked)
-// and by peer B (remembered); A never delivers. After the request window, B polls for retries with
-// a symbolic maximum: every transaction comes back for B exactly once over the polls of that
-// window sequence, none is lost and none is handed out twice without a new timeout.
+// and by peers B and C (remembered); A never delivers. After each request window B polls for
+// retries with a symbolic maximum and C polls at the same instant: every transaction comes back
+// for B and for C exactly once over the polls, none is lost, none is handed out twice to the same
+// peer, and none is handed to C while the request B was just given is still outstanding.
 func VerifC06Retry() {
 	timeout := 40 * time.Millisecond
 	m := NewTxManager(timeout)
 	ctx := ctxbg()
-	a, b := uuid.New(), uuid.New()
+	a, b, c := uuid.New(), uuid.New(), uuid.New()
 	n := 1 + pick("txs", 3)
 	first := txWithBucket(1, -1)
 	txs := []*wire.MsgTx{first}
@@ -254,19 +255,35 @@ func VerifC06Retry() {
 	for _, tx := range txs {
 		r, _ := m.AddTxID(ctx, b, *tx.TxHash())
 		verifAssert(!r, "second-announcement-requested-while-outstanding")
+		r, _ = m.AddTxID(ctx, c, *tx.TxHash())
+		verifAssert(!r, "third-announcement-requested-while-outstanding")
 	}
 	got := make([]int, n)
+	gotC := make([]int, n)
 	max := 1 + pick("max", 3)
 	polls := 0
-	for round := 0; round < n+1; round++ {
+	for round := 0; round < 2*n+1; round++ {
 		verifAdvanceClock(int64(timeout))
 		list, err := m.GetTxRequests(ctx, b, max)
 		verifAssert(err == nil, "get-tx-requests-error")
 		polls++
+		nowB := make([]bool, n)
 		for _, h := range list {
 			for k := range txs {
 				if h.Equal(txs[k].TxHash()) {
 					got[k]++
+					nowB[k] = true
+				}
+			}
+		}
+		// the third announcer polls at the same instant: what B was just asked for is outstanding
+		listC, err := m.GetTxRequests(ctx, c, max)
+		verifAssert(err == nil, "get-tx-requests-error")
+		for _, h := range listC {
+			for k := range txs {
+				if h.Equal(txs[k].TxHash()) {
+					gotC[k]++
+					verifAssert(!nowB[k], "transaction-requested-from-two-peers-in-one-request-window")
 				}
 			}
 		}
@@ -274,6 +291,8 @@ func VerifC06Retry() {
 	for k := range txs {
 		verifAssert(got[k] >= 1, "timed-out-transaction-never-offered-to-other-announcer")
 		verifAssert(got[k] <= 1, "transaction-offered-twice-to-the-same-announcer")
+		verifAssert(gotC[k] >= 1, "timed-out-transaction-never-offered-to-third-announcer")
+		verifAssert(gotC[k] <= 1, "transaction-offered-twice-to-the-same-announcer")
 	}
 	verifObserve("retry", n, max, polls)
 	verifReach("done")
